@@ -7,13 +7,21 @@ origin, no conversion to or from T*), ptr11::checked_ptr<T> ([lo,hi) provenance,
 compared line by line with the model's observation file (addresses as offsets obtained with the pointer type's own
 operator-); the pointer-typed model (extracted, run over a (segment, offset) pointer) must print the same file; the
 checked pointer's violation log must be empty; fixed probes of owning-array paths (reextent, clear, copy/move,
-initializer lists, algorithms, ...) must print the same on the three pointer types."""
+initializer lists, algorithms, ...) must print the same on the three pointer types.
+Follow-up: (a) the C03 family (standard algorithms and primitive scripts on begin()/end() and elements(); harness/
+h11_algos.cpp, programs and expected output from driver_c03); (b) the LIFECYCLE histories of C04/C06/C08 (driver_life,
+fault-free) on harness/h11_life.cpp = h_life.cpp over life11::tracked_alloc (common/ptr11_life_alloc.hpp): the lifecycle
+ledger with pointer = T* / fancy_ptr<T> (interleaved arena, quarantined) / checked_ptr<T> (provenance = the block; a
+released block may not be dereferenced), same observation stream as the extracted Life model required, no K line;
+(c) a sample of view programs re-evaluated by vm_compute inside coqc on Model/PtrAlgebra.v over seg_ptr."""
 import concurrent.futures as cf
 import hashlib
 import os
 import re
 
-from . import core, progcheck, viewprog, c02, c05, c07
+from . import core, progcheck, viewprog, c02, c03, c05, c07
+from . import lifecommon as lc
+from . import vmcheck
 
 PID = "C11"
 KINDS = [("raw", 0), ("fancy", 1), ("checked", 2)]
@@ -61,13 +69,24 @@ def mon_compare(impl_text, obs_text):
     return c07.monitor(impl_text, obs_text) + k_lines(impl_text)
 
 
+def mon_algos(impl_text, obs_text):
+    # C03's monitors (vector twin, frame, guards, moved-from outside); the violation log is the "Y" line in this family
+    # (rows whose shape multi::array cannot hold are C03's own known finding, identical on every pointer type: not repeated here)
+    return [m for m in c03.monitor(impl_text, obs_text) if m[1] != c03.COLLAPSE] + [(l.split()[1], "checked-pointer-violation", l) for l in impl_text.splitlines() if l.startswith("Y ")]
+
+
 FAMILIES = {
     # name: (generator sub-command, run sub-command, harness source, monitor, body prefixes, min lines for "non-trivial", hash prefixes)
     "views": ("views", "views-run", "h11_views.cpp", mon_views, ("op ", "probe "), 3, ("op ", "root ")),
     "iters": ("iters", "iters-run", "h11_iters.cpp", mon_iters, ("op ", "w ", "it "), 6, ("op ", "root ", "w ", "it ")),
     "assign": ("assign", "assign-run", "h11_assign.cpp", mon_assign, ("dop ", "sop "), 4, ("droot", "dop ", "sroot", "sop ", "do ")),
     "compare": ("compare", "compare-run", "h11_compare.cpp", mon_compare, ("xop ",), 6, ("xroot", "xop ", "xdata")),
+    # C03: standard algorithms and primitive scripts on begin()/end() and elements() (driver_c03, no pointer-typed model)
+    "algos": ("gen", "run", "h11_algos.cpp", mon_algos, ("aop ", "bop ", "prim "), 3, ("aroot", "aop ", "broot", "bop ", "range", "prim ", "algo ")),
 }
+FAMILY_DRIVER = {"algos": "driver_c03"}
+FAMILY_FLAGS = {"algos": ("-DBM_MAXD=3", "-w")}
+NO_PTR_MODEL = ("algos",)
 
 
 class Fam(progcheck.Family):
@@ -76,7 +95,8 @@ class Fam(progcheck.Family):
     def __init__(self, fam, kind, kidx, extra_flags=()):
         gen, run, src, mon, prefixes, _ml, _hp = FAMILIES[fam]
         super().__init__(PID, gen, run, "h11_%s_%s" % (fam, kind), [src], monitor=mon,
-                         flags=("-DPTR11_KIND=%d" % kidx,) + tuple(extra_flags), body_prefixes=prefixes)
+                         flags=("-DPTR11_KIND=%d" % kidx,) + FAMILY_FLAGS.get(fam, ()) + tuple(extra_flags), body_prefixes=prefixes,
+                         driver=FAMILY_DRIVER.get(fam, "driver"))
         self.fam, self.kind = fam, kind
         self.raw = ""
 
@@ -121,6 +141,8 @@ class Fam(progcheck.Family):
     def case_fails(self, block):
         if self.fam == "assign":
             c05.index_prog(block)
+        if self.fam == "algos":
+            c03.index_prog(block)
         mtxt = self.model_run(block)
         if re.search(r"^X ", mtxt, re.M):
             return None
@@ -145,6 +167,8 @@ def classify(res, fam_obj, prog_text, obs_text, impl_text, crashes, max_report=2
         failing.setdefault(cid, ("correspondence", ml, il))
     if fam_obj.fam == "assign":
         c05.index_prog(prog_text)
+    if fam_obj.fam == "algos":
+        c03.index_prog(prog_text)
     for cid, what, line in fam_obj.monitor(fam_obj.raw if fam_obj.fam == "compare" else impl_text, obs_text):
         failing.setdefault(cid, ("monitor:" + what, "", line))
     for cid, rc, err in crashes:
@@ -182,6 +206,10 @@ def family_of_text(text):
     if m:
         return m.group(1)
     body = "\n".join(l for l in text.splitlines() if not l.startswith("#"))
+    if re.search(r"^cfg ", body, re.M):
+        return "life"
+    if re.search(r"^aroot ", body, re.M):
+        return "algos"
     if re.search(r"^buf ", body, re.M):
         return "assign"
     if re.search(r"^xroot ", body, re.M):
@@ -322,6 +350,158 @@ def run_probes(res, builds, pool):
 
 
 # --------------------------------------------------------------------------------------------
+# vm_compute cross-check: the POINTER-typed model evaluated inside coqc on a sample of view programs
+# --------------------------------------------------------------------------------------------
+def vm_crosscheck_ptr(prog_text, obs_text, max_cases):
+    """Re-evaluates, with `Eval vm_compute` on the very definitions the theorems are about (Model/PtrAlgebra.v over seg_ptr),
+    sizes, strides, num_elements and the three access-path addresses (as seg_diff p root) of a sample of view programs, and
+    compares them with what the extracted model printed.  Returns (n checked, [mismatch descriptions])."""
+    terms = []
+    for cid, b in core.split_cases(prog_text):
+        if len(terms) >= max_cases:
+            break
+        try:
+            c, _t, nops, nprobes = vmcheck.case_term(b)
+        except (ValueError, IndexError):
+            continue
+        exts, ops, probes = [], [], []
+        for line in b.splitlines():
+            q = line.split()
+            if not q:
+                continue
+            if q[0] == "root":
+                exts = [(q[2 + 2 * k], q[3 + 2 * k]) for k in range(int(q[1]))]
+                probes = []
+            elif q[0] == "op":
+                ops.append(q[1:])
+                probes = []
+            elif q[0] == "probe":
+                probes.append(q[1:])
+        if any(o[0] == "nop" for o in ops):
+            continue
+        root = "[%s]" % "; ".join("(%s, %s)" % (vmcheck.z(f), vmcheck.z(l)) for f, l in exts)
+        pr = "[%s]" % "; ".join("[%s]" % "; ".join(vmcheck.z(x) for x in pb) for pb in probes)
+        t = ("match p_run [%s] (mkpview (mk_layout %s) R0) with Some v => [l_sizes (play v); l_strides (play v); [l_num_elements (play v)]] ++ "
+             "map (fun idx => [seg_diff (p_addr_brackets seg_ptr seg_add v idx) R0; seg_diff (p_addr_paren seg_ptr seg_add v idx) R0; "
+             "seg_diff (p_addr_cursor seg_ptr seg_add v idx) R0]) %s | None => [[-1]] end"
+             % ("; ".join(vmcheck.op_term(o) for o in ops), root, pr))
+        terms.append((c, t, nops))
+    if not terms:
+        return 0, []
+    d = os.path.join(core.BUILD, "work", PID, "vm")
+    os.makedirs(d, exist_ok=True)
+    path = os.path.join(d, "c11_cases.v")
+    with open(path, "w") as f:
+        f.write("From Coq Require Import ZArith List.\nFrom BM Require Import Model.Layout Model.View Model.PtrAlgebra.\nImport ListNotations.\n"
+                "Local Open Scope Z_scope.\nDefinition R0 : seg_ptr := (7%nat, 1000).\n"
+                "Fixpoint p_run (ops : list op) (v : pview seg_ptr) : option (pview seg_ptr) :=\n"
+                "  match ops with [] => Some v | o :: r => match p_apply_op seg_ptr seg_add o v with Some w => p_run r w | None => None end end.\n")
+        for k, (c, t, _n) in enumerate(terms):
+            f.write("Definition c%d := %s.\nEval vm_compute in c%d.\n" % (k, t, k))
+    rc, out, err = core.sh(["coqc", "-Q", core.COQ, "BM", path], cwd=d, timeout=900)
+    if rc != 0:
+        return 0, ["coqc failed on c11_cases.v: " + (out + err)[-500:]]
+    obs = core.by_case(obs_text)
+    chunks = re.split(r"^\s*=\s", out, flags=re.M)[1:]
+    bad = []
+    for (c, _t, nops), ch in zip(terms, chunks):
+        body = ch.split(": list")[0]
+        rows = [[int(x) for x in re.findall(r"-?\d+", r)] for r in re.findall(r"\[([^\[\]]*)\]", body)]
+        exp = vmcheck.expected_from_obs(obs.get(c, []), nops)
+        if exp is None:
+            continue
+        got_strides = rows[1] if len(rows) > 1 else []
+        ok = rows[0] == exp[0] and rows[2:] == exp[2:] and len(got_strides) == len(exp[1]) and \
+            all(e == "*" or int(e) == g for e, g in zip(exp[1], got_strides))
+        if not ok:
+            bad.append("%s: vm_compute %r, extracted pointer model %r" % (c, rows[:6], exp[:6]))
+    return len(terms), bad
+
+
+# --------------------------------------------------------------------------------------------
+# lifecycle histories (the C04/C06/C08 generators of driver_life) on the three pointer types
+# --------------------------------------------------------------------------------------------
+LIFE_SRC = "h11_life.cpp"
+LIFE_PIDS = ("C04", "C06", "C08", "C09", "C10")
+
+
+def life_plan(tier):
+    q = tier == "quick"
+    n = 300 if q else 2000
+    mo = 16 if q else 40
+    cfgs = [lc.cfg(d=2, t=1), lc.cfg(d=1, t=1, pocca=1, pocma=1, pocs=1, socc=1), lc.cfg(d=3, t=0)]
+    if not q:
+        cfgs += [lc.cfg(d=2, t=0), lc.cfg(d=4, t=1), lc.cfg(d=3, t=1, ae=1), lc.cfg(d=2, t=1, pocma=1)]
+    return [{"kind": k, "cfg": c, "count": n, "maxops": mo} for c in cfgs for k in ("c04", "c06", "c08")]
+
+
+def life_build_jobs(pool, cfgs, san=()):
+    """{(cfg key, pointer kind): future of (ok, exe, log)}"""
+    extra = [] if lc.assign_fill_compiles()[0] else ["-DLIFE_NO_ASSIGN_FILL"]
+    jobs = {}
+    for c in cfgs:
+        key = lc.cfg_key(c)
+        for kind, kidx in KINDS:
+            if (key, kind) in jobs or c["pmr"]:
+                continue
+            jobs[(key, kind)] = pool.submit(core.build_harness, "h11_life_" + kind, [LIFE_SRC],
+                                            tuple(lc.cfg_flags(c) + extra + ["-w", "-DPTR11_KIND=%d" % kidx] + list(san)), (), "g++", 900, "-" + key)
+    return jobs
+
+
+def life_verdict(exes, block):
+    """lifecommon's verdict + the K line (violation log / conversions) as its own kind"""
+    v = lc.case_verdict(exes, block)
+    if v and v[0] == "correspondence" and (v[2] or "").startswith("K "):
+        return ("monitor:checked-pointer-violation", v[1], v[2], dict(v[3], kind="pointer-violation"))
+    return v
+
+
+def life_classify(res, kind, exes, prog_text, model_text, impl_text, crashes, max_report=2):
+    blocks = dict(core.split_cases(prog_text))
+    failing = {}
+    for cid, _ml, _il in core.diff_cases(lc.canon(model_text), lc.canon(impl_text)):
+        failing.setdefault(cid, None)
+    for cid in lc.monitors(impl_text):
+        failing.setdefault(cid, None)
+    for cid, rc, err in crashes:
+        failing[cid] = (rc, err)
+    n_reported = 0
+    for cid in sorted(failing, key=lambda c: (len(blocks.get(c, "")), c)):
+        block = blocks.get(cid)
+        if block is None:
+            continue
+        v = life_verdict(exes, block)
+        if not v:
+            continue
+        found_by, ml, il, rec = v
+        record = dict(rec, harness="h11_life", family="life", pointer=kind, found_by=found_by.split(":")[0])
+        kf = core.match_known(PID, record)
+        if not kf:
+            # a finding of the lifecycle properties themselves (same history, same failure on raw pointers) keeps its own entry
+            r2 = dict(rec, harness="h_life", found_by=found_by.split(":")[0])
+            for pid in LIFE_PIDS:
+                kf = kf or core.match_known(pid, r2)
+        if kf:
+            res.known_finding(kf)
+            continue
+        if n_reported >= max_report:
+            continue
+        n_reported += 1
+        small, v2 = lc.shrink(exes, block, budget=40)
+        if v2:
+            found_by, ml, il, rec = v2
+        path = core.write_replay(PID, small, {
+            "property": PID, "family": "life", "pointer": kind, "tier": res.tier, "seed": res.seed, "found-by": found_by,
+            "model-said": ml, "implementation-said": il, "record": rec,
+            "note": "lifecycle history (model coq/Model/Life.v) on the %s pointer: same observation stream required, no K line "
+                    "(violation log of the checked pointer / to_address / pointer_to); replay: ./check C11 --replay <this file>" % kind})
+        res.violation(path, "life/%s %s: model %r impl %r" % (kind, found_by, ml, il))
+    return len(failing)
+
+
+
+# --------------------------------------------------------------------------------------------
 def run(tier, seed, replay=None):
     res = core.Result(PID, tier, seed, level="proof")
     coq = core.coq_check_property(PID)
@@ -334,11 +514,14 @@ def run(tier, seed, replay=None):
     # ---- builds: model drivers, 4 families x 3 pointer types, probes ----
     ok_d, log_d = core.ensure_driver()
     ok_c, log_c = ensure_c11_driver()
-    for ok, step, log in ((ok_d, "build:model-extraction-or-driver", log_d), (ok_c, "build:model-extraction-or-driver-c11", log_c)):
+    ok_l, log_l = lc.ensure_driver()
+    ok_a, log_a = c03.ensure_driver()
+    for ok, step, log in ((ok_d, "build:model-extraction-or-driver", log_d), (ok_c, "build:model-extraction-or-driver-c11", log_c),
+                          (ok_l, "build:model-extraction-or-driver-life", log_l), (ok_a, "build:model-extraction-or-driver-c03", log_a)):
         if not ok:
             path = core.write_replay(PID, "", {"property": PID, "found-by": step, "log": log[-3000:]})
             res.violation(path, step, no_input=True)
-    if not (ok_d and ok_c):
+    if not (ok_d and ok_c and ok_l and ok_a):
         return res.finish()
     core.include_hash()
     san = ("-fsanitize=address,undefined", "-fno-sanitize-recover=all") if thorough else ()
@@ -353,8 +536,31 @@ def run(tier, seed, replay=None):
         for k, _n in isolated:
             jobs["iso%d_%s" % (k, kind)] = pool.submit(core.build_harness, "h11_iso%d_%s" % (k, kind), [PROBE_SRC],
                                                        ("-w", "-O0", "-DPTR11_KIND=%d" % kidx, "-DC11_ONLY=%d" % k), ())
+    replay_text = open(replay).read() if replay else ""
+    lplan = life_plan(tier)
+    life_cfgs = [pl["cfg"] for pl in lplan]
+    if replay:
+        life_cfgs = [lc.parse_cfg_line(l) for l in replay_text.splitlines() if l.startswith("cfg ")]
+    life_jobs = life_build_jobs(pool, life_cfgs, san)
     builds = {k: j.result() for k, j in jobs.items()}
+    life_builds = {k: j.result() for k, j in life_jobs.items()}
     n_build_bad = 0
+    life_exes = {kind: {} for kind, _ in KINDS}
+    for (key, kind), (ok, exe, log) in life_builds.items():
+        if ok:
+            life_exes[kind][key] = exe
+            continue
+        e = first_error(log)
+        record = {"harness": "h11_life", "family": "life", "pointer": kind, "found_by": "compile", "error_at": e["error_at"], "via": e["via"], "error": e["error"]}
+        kf = core.match_known(PID, record) if kind != "raw" else None
+        if kf:
+            res.known_finding(kf)
+            continue
+        path = core.write_replay(PID, "// build step: harness/%s configuration %s with -DPTR11_KIND for the %s pointer\n// %s\n" % (LIFE_SRC, key, kind, e["text"][:300]),
+                                 dict(record, **{"property": PID, "first-error": e["text"], "log": log[-2500:],
+                                                 "what": "the lifecycle harness does not compile with the %s pointer" % kind}))
+        res.violation(path, "lifecycle harness (%s) does not compile with the %s pointer: %s" % (key, kind, e["text"]), no_input=True)
+        n_build_bad += 1
     for key, fo in fams.items():
         ok, exe, log = builds[key]
         fo.exe = exe if ok else None
@@ -379,12 +585,20 @@ def run(tier, seed, replay=None):
                 n_build_bad += 1
 
     if replay:
-        text = open(replay).read()
+        text = replay_text
         fam = family_of_text(text)
         block = "".join(l + "\n" for l in text.splitlines() if not l.startswith("#"))
         if not re.search(r"^case ", block, re.M):
             block = ""          # a replay that names a build / probe step, not a program
         bad = False
+        if fam == "life" and block:
+            for kind, _ in KINDS:
+                for _cid, b in core.split_cases(block):
+                    v = life_verdict(life_exes[kind], b)
+                    print("replay verdict [life/%s]:" % kind, (v[0], v[1], v[2]) if v else "agrees (no violation)")
+                    if v:
+                        res.violation(os.path.relpath(os.path.abspath(replay), core.VERIF), "life/%s %s" % (kind, v[0]))
+            return res.finish()
         for kind, _ in KINDS if block else []:
             fo = fams[(fam, kind)]
             if fo.exe is None:
@@ -406,14 +620,16 @@ def run(tier, seed, replay=None):
     probe_stats, n_probe_bad = run_probes(res, builds, pool)
 
     # ---- program families ----
-    count = {"views": 1500, "iters": 1500, "assign": 1500, "compare": 1500} if not thorough else \
-            {"views": 60000, "iters": 45000, "assign": 45000, "compare": 45000}
+    count = {"views": 1500, "iters": 1500, "assign": 1500, "compare": 1500, "algos": 3000} if not thorough else \
+            {"views": 60000, "iters": 45000, "assign": 45000, "compare": 45000, "algos": 90000}
     edge = 500 if not thorough else 15000
     gen_extra = {
         "views": ["--maxops", "6" if not thorough else "9"],
         "iters": ["--maxops", "4" if not thorough else "6", "--maxsteps", "12" if not thorough else "20"],
         "assign": ["--maxops", "4" if not thorough else "6", "--maxrank", "3" if not thorough else "4"],
         "compare": ["--has-ge"] if has_ge else [],
+        # the row shapes that multi::array cannot hold (C03's own known finding) are left to C03
+        "algos": ["--maxops", "4" if not thorough else "6", "--maxrank", "3", "--primpct", "40", "--collapsepct", "0"],
     }
     totals = {"evaluations": 0, "lines": 0, "failing": 0, "ptr_model_lines": 0}
     dists, per_family, samples, distinct = {}, {}, [], 0
@@ -448,7 +664,7 @@ def run(tier, seed, replay=None):
             out["edge_prog"], out["edge_ptr"], out["edge_int"] = eprog, eobs_ptr, eobs_int
             prog, obs = prog + eprog, obs + eobs_int
         out["prog"], out["obs"], out["dist"] = prog, obs, dist
-        out["ptr_obs"] = fo0.ptr_model_run(prog)
+        out["ptr_obs"] = fo0.ptr_model_run(prog) if f not in NO_PTR_MODEL else obs
         out["impl"] = {}
         for kind, _ in KINDS:
             fo = fams[(f, kind)]
@@ -464,7 +680,8 @@ def run(tier, seed, replay=None):
         ncases = len(core.split_cases(prog))
         # (a) pointer-typed model == integer model on every line (executed instance of C11_pointer_parametric)
         pm_bad = core.diff_cases(obs, r["ptr_obs"])
-        totals["ptr_model_lines"] += r["ptr_obs"].count("\n")
+        if f not in NO_PTR_MODEL:
+            totals["ptr_model_lines"] += r["ptr_obs"].count("\n")
         if pm_bad:
             blocks = dict(core.split_cases(prog))
             cid, ml, il = pm_bad[0]
@@ -491,8 +708,36 @@ def run(tier, seed, replay=None):
         distinct += progcheck.distinct_nontrivial(prog, min_lines=ml, prefixes=hp)
         dists[f] = r["dist"]
         per_family[f] = {"cases": ncases, "observation_lines": obs.count("\n"), "disagreeing_cases_per_pointer": fam_fail,
-                         "pointer_model_equals_integer_model": not pm_bad}
+                         "pointer_model_equals_integer_model": (not pm_bad) if f not in NO_PTR_MODEL else "n/a (no pointer-typed model of this family)"}
         samples += progcheck.samples(prog, n=1, min_lines=6)
+    # ---- vm_compute cross-check of the pointer-typed model (bounds the trust in extraction and in c11_run.ml) ----
+    rv = futs["views"].result()
+    n_vm, vm_bad = vm_crosscheck_ptr(rv["prog"], rv["ptr_obs"], 40 if not thorough else 400)
+    if vm_bad:
+        path = core.write_replay(PID, "", {"property": PID, "found-by": "extraction:vm_compute-disagrees-with-the-extracted-pointer-model",
+                                           "log": "\n".join(vm_bad[:10])})
+        res.violation(path, "vm_compute cross-check failed: " + vm_bad[0], no_input=True)
+        totals["failing"] += len(vm_bad)
+
+    # ---- lifecycle histories (fault-free, generators of C04 / C06 / C08) ----
+    life_progs = [lc.generate(pl["kind"], pl["cfg"], seed + 104729 * k, pl["count"], pl["maxops"], "l%d_" % k, faults=0) for k, pl in enumerate(lplan)]
+    life_prog = "".join(life_progs)
+    life_model = lc.model_run(life_prog)
+    life_cases = len(core.split_cases(life_prog))
+    life_fail = {}
+    life_futs = {kind: pool.submit(lc.impl_run, life_exes[kind], life_prog, max(2, core.NCPU // 3)) for kind, _ in KINDS if life_exes[kind]}
+    for kind, fut in life_futs.items():
+        impl_text, crashes = fut.result()
+        life_fail[kind] = life_classify(res, kind, life_exes[kind], life_prog, life_model, impl_text, crashes)
+        totals["failing"] += life_fail[kind]
+        totals["evaluations"] += life_cases
+        totals["lines"] += life_model.count("\n")
+    distinct += lc.distinct_nontrivial(life_prog)
+    dists["life"] = {"operations": lc.op_histogram(life_prog), "shapes": lc.shape_stats(life_prog),
+                     "configurations": sorted({lc.cfg_text(pl["cfg"]) for pl in lplan})}
+    per_family["life"] = {"cases": life_cases, "observation_lines": life_model.count("\n"), "disagreeing_cases_per_pointer": life_fail,
+                          "executables": sum(len(v) for v in life_exes.values())}
+    samples += lc.samples(life_prog, n=1)
     pool.shutdown(wait=False)
 
     n_failing = totals["failing"] + n_probe_bad + n_build_bad
@@ -509,11 +754,17 @@ def run(tier, seed, replay=None):
                 "programs each from the C11 edge generator (extents 0..5 with 0 and 1 frequent, operations that move the base pointer, "
                 "walks that go to end() and back, it[k] at the first/last valid position); every program runs on T*, fancy_ptr<T> and "
                 "checked_ptr<T>; an evaluation = one program on one pointer type; non-trivial = the C01/C02/C05/C07 rules (>= 2 "
-                "operations / >= 6 walk lines / ...); distinct by hash of the program without probes" % (count["views"], edge),
+                "operations / >= 6 walk lines / ...); distinct by hash of the program without probes; plus %d C03 programs (views of rank "
+                "1..3 through 0..4 operations, 40%% primitive scripts, 60%% one of the 20 standard algorithms, compared with the C03 model "
+                "and the std::vector twin); plus fault-free lifecycle histories (pool of 6 arrays; generators of C04, C06 and C08: every "
+                "constructor form, copy/move, assignment over any prior state, swap, reextent x3, clear, reshape, assign, destroy; %d "
+                "histories of up to %d operations for each of %d configurations of rank / element type / allocator traits), observed "
+                "after every operation" % (count["views"], edge, count["algos"], lplan[0]["count"], lplan[0]["maxops"], len(lplan) // 3),
         "samples": samples[:4],
         "generator_distribution": dists,
         "observation_lines_compared": totals["lines"],
         "pointer_model_lines_compared_with_integer_model": totals["ptr_model_lines"],
+        "view_programs_re_evaluated_by_vm_compute_in_coqc": n_vm,
         "per_family": per_family,
         "pointer_types": ["T* (std::allocator)", "ptr11::fancy_ptr<T> (offset from per-type arena origin; fancy_alloc)",
                           "ptr11::checked_ptr<T> ([lo,hi) provenance; checked_alloc with block ledger)"],
@@ -523,7 +774,9 @@ def run(tier, seed, replay=None):
                           "customisation point)", "operator< between views over DIFFERENT pointer types (not defined; == is)",
                           "index bases other than 0 (C19 replays those on raw pointers)", "stenciled/blocked (re-based results)",
                           "taked() for D > 1 on const views (does not compile at the pinned commit, C01)",
-                          "proxy references (the property fixes proxy-free references)"],
+                          "proxy references (the property fixes proxy-free references)",
+                          "lifecycle histories with injected faults (C09) and pmr configurations (their pointer is T* by definition)",
+                          "C03 rows whose shape multi::array cannot hold (C03's own known finding, identical on every pointer type)"],
     })
     res.assumptions = ["no 64-bit overflow in index arithmetic", "g++ 12 / libstdc++ as installed",
                        "pointer types satisfy the torsor laws (premises of the C11 theorems): fancy_ptr and checked_ptr do by construction",
